@@ -17,6 +17,7 @@ var checks = map[string]struct {
 	"C48": {"exploration", c48},
 	"C07": {"exploration", c07},
 	"C08": {"fault_enumeration", c08},
+	"C29": {"exploration", c29},
 }
 
 func main() {
